@@ -1,6 +1,8 @@
 package jschema
 
 import (
+	"regexp"
+
 	"github.com/jsightapi/jsight-schema-core/errs"
 	"github.com/jsightapi/jsight-schema-core/kit"
 	"github.com/jsightapi/jsight-schema-core/zzverif"
@@ -428,6 +430,146 @@ func VerifC01_TypesUnderAnyRoot() {
 	lt, eq := vCmp(v, b)
 	err := root.Check()
 	zzverif.Assert((err == nil) == (lt || eq), "every registered type's example is checked against its rules, under any root")
+	if err == nil {
+		zzverif.Reach("accepted")
+	} else {
+		zzverif.Reach("rejected")
+	}
+}
+
+// VerifC01_Formats: `"candidate" // {type: "<format>"}` for the built-in
+// string formats over a table of candidates that are clearly valid or clearly
+// invalid under the documented meaning (e-mail address, absolute URI, calendar
+// date, RFC 3339 date-time, UUID): accepted iff valid. The validators run the
+// standard library as host code, so the candidates are concrete.
+func VerifC01_Formats() {
+	zzverif.Expect("accepted", "rejected")
+	type cand struct {
+		typ, text string
+		ok        bool
+	}
+	table := []cand{
+		{"email", "a@b.cc", true}, {"email", "first.last+tag@example.org", true}, {"email", "ab", false}, {"email", "", false},
+		{"email", "a@", false}, {"email", "@b.cc", false}, {"email", " a@b.cc", false}, {"email", "<a@b.cc>", false}, {"email", "a b@c.dd", false},
+		{"uri", "http://a.b/c", true}, {"uri", "https://example.org:8080/p?q=1#f", true}, {"uri", "ab", false}, {"uri", "", false}, {"uri", "http://a b/", false},
+		{"date", "2021-01-08", true}, {"date", "2024-02-29", true}, {"date", "2021-02-29", false}, {"date", "2021-13-01", false}, {"date", "2021-1-8", false},
+		{"date", "21-01-08", false}, {"date", "2021-01-08T00:00:00Z", false}, {"date", "", false},
+		{"datetime", "2021-01-08T12:50:45+06:00", true}, {"datetime", "2021-01-08T12:50:45Z", true}, {"datetime", "2021-01-08", false},
+		{"datetime", "2021-01-08 12:50:45", false}, {"datetime", "2021-01-08T25:00:00Z", false}, {"datetime", "", false},
+		{"uuid", "550e8400-e29b-41d4-a716-446655440000", true}, {"uuid", "550E8400-E29B-41D4-A716-446655440000", true}, {"uuid", "550e8400", false},
+		{"uuid", "550e8400-e29b-41d4-a716-44665544000g", false}, {"uuid", "", false},
+		{"uuid", "{550e8400-e29b-41d4-a716-446655440000)", false}, {"uuid", "(550e8400-e29b-41d4-a716-446655440000}", false},
+		{"uuid", "550e8400-e29b-41d4-a716-4466554400001", false}, {"uuid", "550e8400e29b-41d4-a716-446655440000", false},
+	}
+	c := table[zzverif.IntRange("candidate", 0, len(table)-1)]
+	text := `"` + c.text + `" // {type: "` + c.typ + `"}`
+	where := zzverif.IntRange("where", 0, 2)
+	var s *JSchema
+	switch where {
+	case 0:
+		s = New("s", text)
+	case 1: // as a member
+		s = New("s", "{\n  \"m\": "+text+"\n}")
+	default: // in a registered type
+		s = New("s", `{"m": @t}`)
+		_ = s.AddType("@t", New("@t", text))
+	}
+	err := s.Check()
+	zzverif.Assert((err == nil) == c.ok, "a format-typed string is accepted iff it is a value of that format")
+	if err == nil {
+		zzverif.Reach("accepted")
+	} else {
+		zzverif.Reach("rejected")
+	}
+}
+
+// VerifC01_ConstNullable: a scalar under `type` with every combination of
+// const and nullable: accepted iff the value has the type - const and nullable
+// never reject the example, and a null example without `nullable: true` is
+// rejected.
+func VerifC01_ConstNullable() {
+	zzverif.Expect("accepted", "rejected")
+	v := vNumber("v.", 1, 1, true)
+	typ := []string{"integer", "float", "string", "boolean"}[zzverif.IntRange("type", 0, 3)]
+	nullable := zzverif.IntRange("nullable", 0, 2) // absent, true, false
+	konst := zzverif.IntRange("const", 0, 2)
+	value := [][]byte{[]byte("null"), v.text, []byte(`"s"`), []byte("true")}[zzverif.IntRange("value", 0, 3)]
+	rules := `type: "` + typ + `"`
+	if nullable != 0 {
+		rules += ", nullable: " + []string{"", "true", "false"}[nullable]
+	}
+	if konst != 0 {
+		rules += ", const: " + []string{"", "true", "false"}[konst]
+	}
+	text := vJoin(value, []byte(" // {"+rules+"}"))
+	isNull := string(value) == "null"
+	var fits bool
+	switch typ {
+	case "integer":
+		fits = !isNull && value[0] != '"' && value[0] != 't' && !v.isFloat
+	case "float":
+		fits = !isNull && value[0] != '"' && value[0] != 't'
+	case "string":
+		fits = value[0] == '"'
+	default:
+		fits = value[0] == 't'
+	}
+	// two combinations are left open (the documentation does not settle
+	// them): a null EXAMPLE under `nullable: true` with another type, and an
+	// integer literal under type "float"
+	zzverif.Assume(!(isNull && nullable == 1))
+	zzverif.Assume(!(typ == "float" && !isNull && value[0] != '"' && value[0] != 't' && !v.isFloat))
+	want := fits
+	err := New("s", text).Check()
+	zzverif.Assert((err == nil) == want, "accepted iff the value has the type; const and nullable never reject a value of the type")
+	if err == nil {
+		zzverif.Reach("accepted")
+	} else {
+		zzverif.Reach("rejected")
+	}
+}
+
+// VerifC01_Regex: `"candidate" // {regex: "pattern"}` over concrete patterns
+// and candidates (JSON spelling / decoded value): accepted iff the pattern
+// matches the DECODED string (the regexp engine is host code on both sides;
+// the subject is the plumbing: unquoting of the pattern and of the value).
+func VerifC01_Regex() {
+	zzverif.Expect("accepted", "rejected")
+	// pattern: spelling inside the annotation string / the pattern itself
+	pats := [][2]string{{"^[a-c]+$", "^[a-c]+$"}, {"^x\\\\d$", "^x\\d$"}, {"^A$", "^A$"}, {"^\\u0041$", "^A$"}, {"^\\\"$", "^\"$"}, {"b", "b"}, {"^$", "^$"}, {"^a\\\\.b$", "^a\\.b$"}, {"^\\\\\\\\$", "^\\\\$"}}
+	cands := [][2]string{{"abc", "abc"}, {"x1", "x1"}, {"A", "A"}, {"\\u0041", "A"}, {"\\\"", "\""}, {"", ""}, {"a.b", "a.b"}, {"axb", "axb"}, {"\\\\", "\\"}, {"\\n", "\n"}, {"abd", "abd"}}
+	p := pats[zzverif.IntRange("pattern", 0, len(pats)-1)]
+	c := cands[zzverif.IntRange("candidate", 0, len(cands)-1)]
+	text := `"` + c[0] + `" // {regex: "` + p[0] + `"}`
+	want := regexp.MustCompile(p[1]).MatchString(c[1])
+	err := New("s", text).Check()
+	zzverif.Assert((err == nil) == want, "accepted iff the pattern matches the decoded string")
+	if err == nil {
+		zzverif.Reach("accepted")
+	} else {
+		zzverif.Reach("rejected")
+	}
+}
+
+// VerifC01_OrOfTypes: `V // {or: ["@t", "@u"]}` (in both orders) where @t is
+// an integer with `min: A`, @v one with `max: B` and @u the choice `@t | @v`,
+// so that a type name occurs twice among the flattened alternatives: accepted
+// iff V >= A or V <= B.
+func VerifC01_OrOfTypes() {
+	zzverif.Expect("accepted", "rejected")
+	v := zzverif.Digit("v")
+	a := zzverif.Digit("a")
+	b := zzverif.Digit("b")
+	order := zzverif.IntRange("order", 0, 3)
+	alts := []string{`"@t", "@u"`, `"@u", "@t"`, `"@u", "@v"`, `"@t", "@t2", "@v"`}[order]
+	root := New("root", string([]byte{v})+` // {or: [`+alts+`]}`)
+	_ = root.AddType("@t", New("@t", `9 // {min: `+string([]byte{a})+`}`))
+	_ = root.AddType("@t2", New("@t2", `9 // {min: `+string([]byte{a})+`}`))
+	_ = root.AddType("@v", New("@v", `0 // {max: `+string([]byte{b})+`}`))
+	_ = root.AddType("@u", New("@u", `@t | @v`))
+	err := root.Check()
+	want := v >= a || v <= b
+	zzverif.Assert((err == nil) == want, "accepted iff some alternative, also one reached through a type choice, accepts the value")
 	if err == nil {
 		zzverif.Reach("accepted")
 	} else {
